@@ -2,8 +2,8 @@
 # tools/seed_eval.sh <seed_dir> <Cnn> [tier]: confirm seed then run the check against it; prints one summary line.
 S=$1; P=$2; T=${3:-quick}
 C=$(/verif/tools/confirm_seed.sh "$S" 2>&1 | tail -1)
-R=$(SKIP_TESTS=1 TAIL=40 /verif/tools/mutant_run.sh "$S/patch.diff" "$P" "$T" 2>&1)
+R=$(SKIP_TESTS=1 TAIL=80 /verif/tools/mutant_run.sh "$S/patch.diff" "$P" "$T" 2>&1)
 V=$(echo "$R" | grep -c '^VIOLATION')
 X=$(echo "$R" | grep 'check exit' )
 echo "SEED $S prop=$P tier=$T :: $C :: violations=$V $X"
-echo "$R" | grep -A1 '^VIOLATION' | head -6
+echo "$R" | grep -A1 '^VIOLATION' | head -60
